@@ -14,7 +14,7 @@ import (
 	"github.com/Eyevinn/mp4ff/mp4"
 )
 
-const cryptoRule = "cases = (a) function level: protect ranges of synthetic AVC/HEVC samples (NAL unit sizes around 0/1/15/16/17/91/92/107/108/111/112/123/127/128/1000 and clear runs > 65535), cbcs protect ranges of generated AVC access units (parameter sets and I/P/B/SP/SI slice headers of every kind from the independent serialiser of the C15 harness, which knows each slice header's byte length: reference list override on/off, PPS L0/L1 defaults drawn apart, list modification, explicit weighted prediction, marking operations, field pictures, slice groups; slices below/at/above 127 bytes; AUD, SEI, in-band parameter sets, end-of-sequence units), AppendProtectRange, CTR crypt over ranges, the CBC pattern cipher with every crypt/skip shape, IV increments incl. carries and wrap, AES blocks; (b) fragment level: clear fragments (real AVC/HEVC/AAC samples of the repository's segments, synthetic AVC samples, and generated AVC tracks whose init segment is built from generated parameter sets) x {cenc, cbcs} x IV {8, 16 bytes, ff..ff} x 1..3 fragments x extra boxes (tfxd uuid, free, unknown, roll sample group) encrypted by the library, checked against an independent crypto/cipher reference and CENC well-formedness, then decrypted and compared with the clear input; (c) auxiliary information at the one-byte saiz limit: IV length {8, 16} x {cenc, cbcs} x one sample with 36..45 sub-sample entries (slices), at fragment level and as prot.enciv model lines: refused, or saiz entries = byte lengths of the senc entries as written and saio offset + sum(saiz) = end of senc (bytes parsed independently); (d) multi-track protected inits as packagers write them: 2..4 tracks (repository AVC/HEVC/AAC and generated AVC; each cenc, cbcs or clear with its own 8/16-byte IV) x track IDs from a pool (not ascending, large) x trex boxes of mvex in a permutation of the trak order x mehd/leva/trep/unknown boxes in mvex, pssh/udta in moov, mvex before or after the traks x sample duration/flags in the trun or only in the trex box, through InitProtect, both file decoders, DecryptInit, EncryptFragment / DecryptFragment on single-track fragments of every track and on multi-track fragments (trafs in another order, sometimes interleaved truns), every sample compared byte-for-byte and field-for-field with the clear input, the decrypted init with the never-protected init, every track's decrypt info with the trex box of its own ID (also prot.trex model lines incl. repeated / missing trex boxes); non-trivial = distinct case with at least one protected byte"
+const cryptoRule = "cases = (a) function level: protect ranges of synthetic AVC/HEVC samples (NAL unit sizes around 0/1/15/16/17/91/92/107/108/111/112/123/127/128/1000 and clear runs > 65535), cbcs protect ranges of generated AVC access units (parameter sets and I/P/B/SP/SI slice headers of every kind from the independent serialiser of the C15 harness, which knows each slice header's byte length: reference list override on/off, PPS L0/L1 defaults drawn apart, list modification, explicit weighted prediction, marking operations, field pictures, slice groups; slices below/at/above 127 bytes; AUD, SEI, in-band parameter sets, end-of-sequence units), cbcs protect ranges of generated HEVC access units (C15 HEVC serialiser: picture sizes that are multiples of the minimum coding block but mostly not of the CTB size, first and non-first slice segments with slice_segment_address, dependent segments, I/P/B, reference picture sets, weighted prediction, entry points, header extension; AUD, VPS/SPS/PPS in band, prefix/suffix SEI, end-of-sequence), hand-made sub-sample maps of 1..8 entries with clear-only entries (first, middle, last, several in a row) and zero-clear entries under CTR and the CBC pattern, samples with a 64..130 KiB SEI before the first or between NAL units (AVC/HEVC x cenc/cbcs: ranges, shape, cipher), AppendProtectRange, CTR crypt over ranges, the CBC pattern cipher with every crypt/skip shape, IV increments incl. carries and wrap, AES blocks; (b) fragment level: clear fragments (real AVC/HEVC/AAC samples of the repository's segments, synthetic AVC samples, and generated AVC and HEVC tracks whose init segment is built from generated parameter sets, and fragments whose first sample carries a 64..130 KiB SEI) x {cenc, cbcs} x IV {8, 16 bytes, ff..ff} x 1..3 fragments x extra boxes (tfxd uuid, free, unknown, roll sample group) encrypted by the library, checked against an independent crypto/cipher reference and CENC well-formedness, then decrypted and compared with the clear input; (c) auxiliary information at the one-byte saiz limit: IV length {8, 16} x {cenc, cbcs} x one sample with 36..45 sub-sample entries (slices), at fragment level and as prot.enciv model lines: refused, or saiz entries = byte lengths of the senc entries as written and saio offset + sum(saiz) = end of senc (bytes parsed independently); (d) multi-track protected inits as packagers write them: 2..4 tracks (repository AVC/HEVC/AAC and generated AVC; each cenc, cbcs or clear with its own 8/16-byte IV) x track IDs from a pool (not ascending, large) x trex boxes of mvex in a permutation of the trak order x mehd/leva/trep/unknown boxes in mvex, pssh/udta in moov, mvex before or after the traks x sample duration/flags in the trun or only in the trex box, through InitProtect, both file decoders, DecryptInit, EncryptFragment / DecryptFragment on single-track fragments of every track and on multi-track fragments (trafs in another order, sometimes interleaved truns), every sample compared byte-for-byte and field-for-field with the clear input, the decrypted init with the never-protected init, every track's decrypt info with the trex box of its own ID (also prot.trex model lines incl. repeated / missing trex boxes); non-trivial = distinct case with at least one protected byte"
 
 func init() {
 	props["C07"] = &propDef{rule: cryptoRule, gen: func(c *Ctx) { genCrypto(c, "C07") }, exec: execCrypto}
@@ -126,6 +126,8 @@ func execCryptoInner(op string, a []string) string {
 		return showRanges(r)
 	case "cbcs.avcranges":
 		return execCbcsAvcRanges(a)
+	case "cbcs.hevcranges":
+		return execCbcsHevcRanges(a)
 	case "cenc.apr":
 		return showRanges(mp4.AppendProtectRange(nil, uint32(atoi(a[0])), uint32(atoi(a[1]))))
 	case "cenc.crypt":
@@ -223,12 +225,13 @@ func refCbcs(clear, key, iv16 []byte, ranges []mp4.SubSamplePattern, crypt, skip
 }
 
 type clearSource struct {
-	name    string
-	codec   string // avc | hevc | aac
-	init    []byte
-	samples []mp4.FullSample
-	hdrOf   func(nalu []byte) int // generated tracks (c0607es.go): independent slice header size of a video NAL unit
-	es      *esTrack
+	name     string
+	codec    string // avc | hevc | aac
+	init     []byte
+	samples  []mp4.FullSample
+	hdrOf    func(nalu []byte) int // generated tracks (c0607es.go): independent slice header size of a video NAL unit
+	es       *esTrack
+	bigClear bool // c0607hevc.go: the first sample of every fragment gets a non-video NAL unit of 64 KiB and more
 }
 
 var clearSources []*clearSource
@@ -348,7 +351,10 @@ func genCrypto(c *Ctx, which string) {
 		q := fmt.Sprintf("cenc.ivinc %s %s %d", hx(iv), rs, len(s))
 		run(q)
 	}
-	genCbcsRanges(c, which) // cbcs sub-sample maps of generated access units with real slice headers (c0607es.go)
+	genCbcsRanges(c, which)         // cbcs sub-sample maps of generated access units with real slice headers (c0607es.go)
+	genCbcsHevcRanges(c, which)     // the same for generated HEVC access units: slice segments of every kind (c0607hevc.go)
+	genSubSampleMaps(c, which, key) // hand-made sub-sample maps: clear-only / zero-clear entries at every position (c0607hevc.go)
+	genBigClear(c, which, key)      // more than 65535 clear bytes before / between protected NAL units (c0607hevc.go)
 	// AppendProtectRange, IV increments, AES blocks, cbcs pattern cipher
 	for it := 0; it < c.N(600, 8000); it++ {
 		a := []int{0, 1, 65534, 65535, 65536, 65537, 131070, 131071, 200000, c.R.Intn(300000)}[c.R.Intn(10)]
@@ -444,12 +450,17 @@ func genCrypto(c *Ctx, which string) {
 			if es := esClearSource(c, 6); es != nil {
 				src, synthetic = es, false
 			}
+		} else if c.R.Intn(4) == 0 { // a generated HEVC track (c0607hevc.go)
+			if es := hesClearSource(c, 6); es != nil {
+				src, synthetic = es, false
+			}
 		}
 		fragCase(c, which, src, scheme, key, iv, nfr, extras, synthetic)
 	}
-	genAuxLimit(c, which, key) // samples whose auxiliary information is around the one-byte saiz limit (c0607es.go)
-	emitProtModel(c, which)    // box bookkeeping of encrypt / decrypt against the Lean model (c0607model.go)
-	genMultiInit(c, which)     // multi-track protected inits as packagers write them: IDs, trex order, extra boxes (c0607multi.go)
+	genBigClearFrags(c, which, key, srcs) // fragments whose first sample has a clear run above 65535 bytes (c0607hevc.go)
+	genAuxLimit(c, which, key)            // samples whose auxiliary information is around the one-byte saiz limit (c0607es.go)
+	emitProtModel(c, which)               // box bookkeeping of encrypt / decrypt against the Lean model (c0607model.go)
+	genMultiInit(c, which)                // multi-track protected inits as packagers write them: IDs, trex order, extra boxes (c0607multi.go)
 	if which == "C06" {
 		genBdoFrags(c, key) // clear fragments whose tfhd has base-data-offset-present (c0607tool.go)
 		genCryptoTools(c)   // the mp4ff-encrypt / mp4ff-decrypt binaries in every flow they offer (c0607tool.go)
@@ -569,6 +580,9 @@ func fragCase(c *Ctx, which string, src *clearSource, scheme string, key, iv []b
 				d := cp(s.Data)
 				if synthetic {
 					d = synthAvcSample(c)
+				}
+				if src.bigClear && k == 0 {
+					d = insertBigNonVideo(c.R, src.codec, d)
 				}
 				s.Data = d
 				s.Size = uint32(len(d))
@@ -690,7 +704,7 @@ func fragCase(c *Ctx, which string, src *clearSource, scheme string, key, iv []b
 							checkRangesShape(c, src.codec, clear, ranges, desc+fmt.Sprintf(" sample %d %s", i, clip(hx(clear))))
 						}
 						if which == "C07" && scheme == "cbcs" && src.hdrOf != nil {
-							checkCbcsShape(c, clear, ranges, src.hdrOf, desc+fmt.Sprintf(" sample %d %s", i, clip(hx(clear))))
+							checkCbcsShape(c, src.codec, clear, ranges, src.hdrOf, desc+fmt.Sprintf(" sample %d %s", i, clip(hx(clear))))
 						}
 						tot := 0
 						for _, r := range ranges {
